@@ -2015,7 +2015,8 @@ class HDKey(Key):
 
         # Verify addresshash
         k = HDKey(priv, compressed=compressed, network=network, witness_type=witness_type)
-        addr = k.address()
+        # BIP38 commits to the P2PKH address of the key, whatever witness type the HD key object gets
+        addr = k.address(script_type='p2pkh', encoding='base58')
         if isinstance(addr, str):
             addr = addr.encode('utf-8')
         if double_sha256(addr)[0:4] != addresshash:
